@@ -40,6 +40,9 @@ claim("C19", "construct-set analysis + CFG dominance of Ok-returns and stores by
 claim("C02", "write-set, dominance/post-dominance and effect-freedom rules on the step function's CFG + exact polynomial identities on the batch loop's buffer size and slice offset + parameter-role inference, over rustc MIR",
       "Sound static decision that the frame cursor advances exactly once per synthesized frame, that the exhausted path returns 0 and has no effect, that the three stream arguments use the one cursor value in the right roles, that the batch is a loop of steps whose chunks tile the buffer exactly (o(s)=0, o(k+1)-o(k)=f, B=o(L)), and that all cross-frame state is owned by the generator. These imply chunk concatenation = one-shot output and finish = remaining suffix for every call history and buffer size.")
 
+claim("C08", "def-use normal forms (clamp domain over the rounded model value, exact polynomials) + dominating-guard rules + natural-loop exit and update-pairing analysis, over rustc MIR",
+      "Sound static decision of the clauses from which the speaking-rate law follows: per-state duration = cast(max(round(mean+rho*vari),1)); create() uses rho=0 unless speed != 1; target = cast(max(round(sum/speed),1)); target <= states gives all ones; the greedy loop exits only on target == sum, starts from the element sum, changes one element and the sum by the same +-1 with the sign of target-sum, and never decrements a 1-frame state; condition.speed is what create() receives. Total = max(round(F1/s), states) and every state >= 1 follow arithmetically.")
+
 
 def main():
     props = [json.loads(l) for l in open(os.path.join(VERIF, "properties.jsonl"))]
